@@ -121,6 +121,18 @@ def host_classes():
           return (params_t, *[g * 3.0 for g in inputs_t])
         tagged = nn.custom_vjp(f, forward_fn=fwd, backward_fn=bwd)
         return dict(y=tagged(core, primals[0]))
+      if k == 'custom_vjp_used_before':
+        # the wrapped module has already been called once in this apply: its child scopes (and their rng counters) exist
+        def f(mdl, x):
+          return mdl(x)
+        def fwd(mdl, x):
+          return nn.vjp(f, mdl, x)
+        def bwd(vjp_fn, y_t):
+          return vjp_fn(y_t)
+        first = core(primals[0])
+        return dict(y=0.5 * first + nn.custom_vjp(f, forward_fn=fwd, backward_fn=bwd)(core, primals[0]))
+      if k == 'plain_used_before':
+        return dict(y=0.5 * core(primals[0]) + core(primals[0]))
       if k == 'plain':
         return dict(y=core(primals[0]))
       if k.startswith('plain_fn:'):
@@ -361,19 +373,23 @@ def run_noisy_custom_vjp(ctx, i, rng):
   for _ in range(rng.randint(1, 2)):
     ops.insert(rng.randint(0, len(ops)), rng.choice([('noise', 'noise'), ('noise', 'other'), ('dropout', 0.5)]))
   inner = (inner[0], inner[1], tuple(ops))
-  kind = ['custom_vjp', 'custom_vjp_inputs'][i % 2]
+  kind = ['custom_vjp', 'custom_vjp_inputs', 'custom_vjp_used_before'][i % 3]
   desc = dict(kind=kind, inner=repr(inner)[:600], d=d, noisy=True)
   with ctx.case('noisy_custom_vjp', i, desc, nontrivial=True):
     nr = np.random.default_rng(rng.getrandbits(32))
     primals = make_primals(nr, 1, d, b=3)
     rngs = {'noise': jax.random.key(1000 + i), 'other': jax.random.key(2000 + i), 'dropout': jax.random.key(3000 + i)}
     V = unfreeze(Host('plain', inner, d).init(dict(rngs, params=jax.random.key(i)), primals, None))
-    y_plain = Host('plain', inner, d).apply(V, primals, None, rngs=rngs, mutable=['state'])[0]['y']
+    # (used_before: collections outside grad_vars are closed over by jax.custom_vjp; a counter already advanced by the first call
+    # would be a closed-over tracer under jit - a loud JAX restriction, not the subject here - so that variant runs without mutable state)
+    mut = False if kind == 'custom_vjp_used_before' else ['state']
+    unpack = (lambda o: o['y']) if mut is False else (lambda o: o[0]['y'])
+    y_plain = unpack(Host('plain_used_before' if kind == 'custom_vjp_used_before' else 'plain', inner, d).apply(V, primals, None, rngs=rngs, mutable=mut))
     host = Host(kind, inner, d)
 
     def app(params, x):
       VV = dict(V, params=params)
-      return host.apply(VV, (x,), None, rngs=rngs, mutable=['state'])[0]['y']
+      return unpack(host.apply(VV, (x,), None, rngs=rngs, mutable=mut))
 
     x = primals[0]
     forms = {
@@ -495,7 +511,7 @@ def run_custom_vjp_inputs(ctx, i, rng):
 def run(ctx):
   for i in ctx.indices(48 if ctx.tier == 'quick' else 480, 'noisy'):
     run_noisy(ctx, i, ctx.rng('noisy', i))
-  for i in ctx.indices(16 if ctx.tier == 'quick' else 160, 'noisy_custom_vjp'):
+  for i in ctx.indices(24 if ctx.tier == 'quick' else 240, 'noisy_custom_vjp'):
     run_noisy_custom_vjp(ctx, i, ctx.rng('noisy_custom_vjp', i))
   for i in ctx.indices(15 if ctx.tier == 'quick' else 150, 'custom_vjp_inputs'):
     run_custom_vjp_inputs(ctx, i, ctx.rng('cvi', i))
